@@ -36,7 +36,7 @@ def scenario(ctx, i):
         ci = np.rint(cent).astype(np.int64)
         if len({tuple(row) for row in ci.tolist()}) == K:
             cent = ci
-    return dict(K=K, D=D, x=x, cent=cent, sizes=gen.random_composition(r, N))
+    return dict(K=K, D=D, x=x, cent=cent, sizes=gen.random_composition(r, N), late=[None, None, "set_params", "setattr"][int(r.integers(0, 4))])
 
 
 def margin_ok(x, cent):
@@ -52,8 +52,18 @@ def fit(sc, x_in, max_iter, thr, init=None):
     from bob.learn.em import KMeansMachine
     from bob.learn.em import kmeans as kmod
 
-    m = KMeansMachine(sc["K"], init_method=np.array(sc["cent"]) if init is None else init, max_iter=max_iter, convergence_threshold=thr,
-                      random_state=sc.get("seed", 0))
+    late = sc.get("late")
+    if late:
+        # configured after construction: the limits in force are those of the machine when fit is called
+        m = KMeansMachine(sc["K"], init_method=np.array(sc["cent"]) if init is None else init, max_iter=(max_iter or 3) + 4, convergence_threshold=0.3,
+                          random_state=sc.get("seed", 0))
+        if late == "set_params":
+            m.set_params(max_iter=max_iter, convergence_threshold=thr)
+        else:
+            m.max_iter, m.convergence_threshold = max_iter, thr
+    else:
+        m = KMeansMachine(sc["K"], init_method=np.array(sc["cent"]) if init is None else init, max_iter=max_iter, convergence_threshold=thr,
+                          random_state=sc.get("seed", 0))
     with obs.Recorder(kmod, "m_step", lambda out: float(out[1])) as rec:
         res = core.impl(lambda: m.fit(x_in))
     if isinstance(res, core.ImplError):
@@ -99,7 +109,7 @@ def correspondence(ctx):
         ctx.count(f"blocks={len(blocks)}")
         ctx.case([core.tolist(sc["x"]), core.tolist(sc["cent"]), sc["sizes"]], nontrivial=sc["K"] >= 2 and np.sum(counts > 0) >= 2,
                  sample={"K": sc["K"], "D": sc["D"], "rows": len(sc["x"]), "chunks": sc["sizes"], "counts": counts, "criterion_model": core.dec(o["crit"])})
-        inp = {k: sc[k] for k in ("K", "D", "x", "cent", "sizes")}
+        inp = {k: sc[k] for k in ("K", "D", "x", "cent", "sizes", "late") if k in sc}
         # e_step per block
         for b, p in zip(blocks, o["per"]):
             r = core.impl(lambda: kmod.e_step(b, means=sc["cent"]))
@@ -165,7 +175,7 @@ def correspondence(ctx):
             ctx.count(f"{tag}:thr=" + ("none" if thr is None else "zero" if thr == 0 else "exact" if thr in obs.conv_values(full) else "other"))
             ctx.case([tag, core.tolist(sc["x"]), core.tolist(sc["cent"]), cap, thr], nontrivial=True, sample={"op": tag, "cap": cap, "thr": thr, "criteria": full, "model_k": o.get("k")})
             if isinstance(crit, core.ImplError) or o.get("k") != len(crit) or crit != full[: len(crit)] or amd != crit[-1]:
-                bad.append({"op": tag, "input": {**{k: sc[k] for k in ("K", "D", "x", "cent", "sizes")}, "cap": cap, "thr": thr}, "model": o,
+                bad.append({"op": tag, "input": {**{k: sc[k] for k in ("K", "D", "x", "cent", "sizes", "late") if k in sc}, "cap": cap, "thr": thr}, "model": o,
                             "impl": repr(crit) if isinstance(crit, core.ImplError) else {"iterations": len(crit), "criteria": crit, "no_threshold": full, "average_min_distance": amd}})
     # the same machine object fitted again: the loop must not remember anything from the previous fit
     from bob.learn.em import kmeans as kmod2
@@ -292,7 +302,7 @@ def search(ctx):
         f = oracle(sc, use_dask=use_dask)
         if f and f["sig"] not in seen:
             seen.add(f["sig"])
-            f["input"] = {**{k: sc[k] for k in ("K", "D", "x", "cent", "sizes")}, "dask": use_dask}
+            f["input"] = {**{k: sc[k] for k in ("K", "D", "x", "cent", "sizes", "late") if k in sc}, "dask": use_dask}
             f["oracle"] = "descent"
             fails.append(f)
     if ctx.tier == "thorough" or ctx.broken:
@@ -309,7 +319,7 @@ def search(ctx):
             ctx.count("search:stop")
             if f and f["sig"] not in seen:
                 seen.add(f["sig"])
-                f["input"] = {**{k: sc[k] for k in ("K", "D", "x", "cent", "sizes")}, "dask": use_dask, "cap": cap, "conv_thr": thr}
+                f["input"] = {**{k: sc[k] for k in ("K", "D", "x", "cent", "sizes", "late") if k in sc}, "dask": use_dask, "cap": cap, "conv_thr": thr}
                 f["oracle"] = "stop"
                 fails.append(f)
     return fails
